@@ -1,10 +1,10 @@
-import Spk.Machine3
+import Spk.Machine4 -- (spike: module Spk.Machine4 = spikes/Machine.lean)
 /-
 Spike: C08 — semantic core of pruning.  A program whose untaken case branches are replaced by
 hidden nodes and whose types shrink (unit in place of anything) computes, on the pruned input, the
 pruned output.
 -/
-namespace BM3
+namespace BM4
 
 inductive Le : Ty → Ty → Prop
   | one (t) : Le .one t
@@ -138,4 +138,4 @@ theorem eval_shrink {a' b' a b : Ty} {t' : Term a' b'} {t : Term a b} {v : Val}
     | inr _ => simp at h1
 
 #print axioms eval_shrink
-end BM3
+end BM4
